@@ -84,12 +84,25 @@ def param_type(p):
     return ("*" if p.get("ptr") else "") + p["type"]
 
 
-def signature(m, ctxpkg="context"):
-    ps = []
-    for p in m["params"]:
-        ps.append("%s %s" % (p["name"], param_type(p)))
+def param_groups(m, ctxpkg="context"):
+    """the parameter list as written: [(names, type text, param dict | None for the context parameter)]; with m["grouped"] adjacent
+    parameters of the same type share one entry (`a, b string`)"""
+    ps = [([p["name"]], param_type(p), p) for p in m["params"]]
     if m.get("ctx"):
-        ps.insert(min(m.get("ctxpos", 0), len(ps)), "%s %s.Context" % (m["ctx"], ctxpkg))
+        ps.insert(min(m.get("ctxpos", 0), len(ps)), ([m["ctx"]], "%s.Context" % ctxpkg, None))
+    if not m.get("grouped"):
+        return ps
+    out = []
+    for names, ty, p in ps:
+        if out and out[-1][1] == ty and p is not None and out[-1][2] is not None and p["kind"] == out[-1][2]["kind"] and p["kind"] != "struct":
+            out[-1] = (out[-1][0] + names, ty, out[-1][2])
+        else:
+            out.append((list(names), ty, p))
+    return out
+
+
+def signature(m, ctxpkg="context"):
+    ps = ["%s %s" % (", ".join(names), ty) for names, ty, _p in param_groups(m, ctxpkg)]
     if m["result"]["shape"] == "none":
         rs = "(*http.Response, error)"
     else:
@@ -797,9 +810,14 @@ def iface_forms(iface):
         ps = [["p", Q(p["name"]), kind_sexp(p), "ptr" if p.get("ptr") else "val"] for p in m["params"]]
         if m.get("ctx"):
             ps.insert(min(m.get("ctxpos", 0), len(ps)), ["p", Q(m["ctx"]), "ctx", "val"])
+        groups = [["g", [Q(n) for n in names], "ctx" if p is None else kind_sexp(p), "ptr" if (p or {}).get("ptr") else "val"]
+                  for names, _ty, p in param_groups(m)]
+        shape = (m.get("result") or {}).get("shape", "none")
+        results = ([] if shape == "none" else [["0", {"ptr": "star", "slice": "slice", "map": "map"}[shape]]]) + [["0", "resp"], ["0", "err"]]
         ms.append(["m", Q(m["name"]), ["doc", Q(method_doc(m))], ["verb", m["verb"].lower()], ["path", Q(m["path"])],
-                   ["alias"] + [[Q(a), Q(b)] for a, b in m["alias"]], ["params"] + ps])
-    return [["hdoc", Q(hdoc)], ["headers"] + [[Q(k), Q(v)] for k, v in (iface.get("headers") or [])], ["methods"] + ms]
+                   ["alias"] + [[Q(a), Q(b)] for a, b in m["alias"]], ["params"] + ps, ["groups"] + groups, ["results"] + results])
+    pos = min(int(iface.get("embedpos") or 0), len(iface["methods"]))
+    return [["hdoc", Q(hdoc)], ["embedpos", str(pos)], ["headers"] + [[Q(k), Q(v)] for k, v in (iface.get("headers") or [])], ["methods"] + ms]
 
 
 def iface_sexp(cid, iface, calls):
